@@ -512,6 +512,7 @@ def r_commit_rule(ctx):
     idx_pos, term_pos = journal_positions(P)
     writes = U.assigns_to_attr(P, f, R.commitIndex)
     ctx.require(writes, 'the tick never writes the commit index (leader commit rule gone)')
+    cached_thresholds = set(c_._cached[0] for f_, c_, a_, cnt_, th_, lc_ in majority_sites(ctx) if getattr(c_, '_cached', None) and a_ == R.voters)
     for st, kind in writes:
         n = U.node_containing(cfg, st)
         inst = 'leader commit write `%s`' % unparse(st)
@@ -562,8 +563,9 @@ def r_commit_rule(ctx):
                 lenkey = 'len(self.%s)' % R.voters
 
                 def mentions_len(t, fs=fs, depth=0):
-                    # directly, or through a local the threshold was hoisted into (`half = (len(voters) + 1) / 2`)
-                    if lenkey in t.key:
+                    # directly, or through a local the threshold was hoisted into (`half = (len(voters) + 1) / 2`), or through
+                    # an attribute that caches it (R-majority demands that such an attribute follows the voter set)
+                    if lenkey in t.key or any(('self.' + a_) in t.key for a_ in cached_thresholds):
                         return True
                     if depth > 2:
                         return False
@@ -1118,6 +1120,15 @@ def r_sender_prev_adjacent(ctx):
                   and unparse(s_.value.args[0]) == unparse(call.args[0]) and s_.value is not call]
         if not firsts:
             problems.append('entries are not fetched from the index the previous position was computed for (`%s`)' % unparse(call.args[0]))
+        # ... and computed for the value that index has when the message goes out: the pair still equals helper(<index>) at the
+        # send (an index advanced between the computation and a later batch makes the pair stale)
+        sn_ = U.node_containing(ex.cfg, c)
+        want_pv = ex.tb.term(ast.Subscript(value=call, slice=ast.Constant(value=0), ctx=ast.Load()))
+        if not want_pv.volatile and sn_ is not None and res.facts_at(sn_.id):
+            stale = [fs for fs in res.facts_at(sn_.id) if not oracle.entails(fs, ('eq', ex.tb.term(pv), want_pv))]
+            if stale:
+                problems.append('on some path the message carries a previous position computed for an earlier value of `%s`: %s'
+                                % (unparse(call.args[0]), res.path_str(sn_.id, stale[0])))
         if okh and not problems:
             ctx.ok(inst, f.loc(c), 'prev = %s(%s) = (%s - 1, its term); entries fetched from %s' % (hlp.name, unparse(call.args[0]), unparse(call.args[0]), unparse(call.args[0])))
         else:
